@@ -231,8 +231,10 @@ type run struct {
 	refKey     map[vivid.ActorRef]key
 	obs        []lib.T
 	seens      []seen
-	panics     []panicRec // scripted failures raised by user code, with the failing actor's state at that moment
-	decs       []decRec   // every consultation of a scripted supervision strategy
+	panics     []panicRec   // scripted failures raised by user code, with the failing actor's state at that moment
+	decs       []decRec     // every consultation of a scripted supervision strategy
+	supCalls   []*supCall   // every handler call on a failure report
+	provider   map[key]bool // contexts whose spec has an actor provider
 	slog       []slogEv
 	deadLaunch map[string]bool // paths whose OnLaunch was reported as a dead letter
 	scripted   map[string]bool // paths of actors that were given a scripted strategy (others use the system default)
@@ -241,6 +243,10 @@ type run struct {
 	curExt     int
 	panicked   string
 	sends      map[uint64]int
+	unbecomes  int
+	watchersAt map[key][]string        // context -> who was watching it when its behaviour saw its own OnKilled
+	watching   map[key]map[string]bool // context -> paths whose Watch request it has handled (and no Unwatch since)
+	stashCalls map[uint64]int          // tag -> Stash() calls made while that user message was the current one (each parks one more copy)
 	onceDone   map[string]bool
 }
 
@@ -346,8 +352,29 @@ type panicRec struct {
 	state int // state of the failing context when user code panicked: 0 running, 1 killing, 2 killed
 }
 type decRec struct {
-	sup   string   // path of the supervising actor ("" if it has not handled a message yet)
-	chain []string // paths of SupervisionContext.Child()
+	sup      string     // path of the supervising actor ("" if it has not handled a message yet)
+	chain    []string   // paths of SupervisionContext.Child()
+	children []string   // paths of SupervisionContext.Children() (what a one-for-all strategy returns as its targets)
+	strategy int        // 1 one-for-one, 2 one-for-all
+	decision int        // the value the scripted decision maker returned
+	sub      [][]string // targets recorded in the sub-contexts of an escalated report (innermost last)
+}
+
+// supCall is one handler call of a supervisor on a failure report (C08): the consultations of its scripted strategy
+// made during the call and every envelope the supervisor's thread inserted anywhere until the handler returned.
+type supCall struct {
+	sup     key
+	state   int32 // the supervisor's own state during the call (0 running, 1 killing, 2 killed)
+	zombie  bool
+	child   string // the failing child named by the report
+	decs    []decRec
+	pushes  []supPush
+	aborted bool // the run was cut before the handler returned
+}
+type supPush struct {
+	kind   int    // 2 kill, 4 failure report (escalation), 5 pause, 6 resume, 7 restart
+	flag   bool   // poison (kill) / graceful (restart)
+	target string // path of the actor the envelope is addressed to
 }
 
 type shared struct {
@@ -406,16 +433,19 @@ func (r *run) newActor(spec *Spec) (*sa, []vivid.ActorOption) {
 	opts := []vivid.ActorOption{vivid.WithActorName(fmt.Sprintf("a%d", spec.Name))}
 	if spec.Strategy != 0 {
 		dm := vivid.SupervisionStrategyDecisionMakerFN(func(ctx vivid.SupervisionContext) (vivid.SupervisionDecision, string) {
-			var chain []string
+			var chain, children []string
 			for _, ch := range ctx.Child() {
 				chain = append(chain, ch.GetPath())
 			}
-			r.decs = append(r.decs, decRec{sup: sh.path, chain: chain})
+			for _, ch := range ctx.Children() {
+				children = append(children, ch.GetPath())
+			}
 			d := 3
 			if sh.decK < len(spec.Decisions) {
 				d = spec.Decisions[sh.decK]
 				sh.decK++
 			}
+			r.decs = append(r.decs, decRec{sup: sh.path, chain: chain, children: children, strategy: spec.Strategy, decision: d, sub: actor.XVSupSubTargets(ctx)})
 			return vivid.SupervisionDecision(d), "scripted"
 		})
 		if spec.Strategy == 1 {
@@ -526,6 +556,9 @@ func (r *run) exec(c apiCtx, full vivid.ActorContext, who key, a Action, ext int
 			r.held[ext] = append(r.held[ext], ref)
 		}
 	case aStash:
+		if u, ok := full.Message().(*UMsg); ok {
+			r.stashCalls[u.Tag]++
+		}
 		full.Stash()
 	case aUnstash:
 		if a.HasN {
@@ -536,6 +569,9 @@ func (r *run) exec(c apiCtx, full vivid.ActorContext, who key, a Action, ext int
 	case aPanic:
 		if cc, ok := full.(*actor.Context); ok && full != nil {
 			r.panics = append(r.panics, panicRec{who: who, state: int(actor.XVInfo(cc).State)})
+		}
+		if len(r.panics)%2 == 1 {
+			full.Failed("scripted failure") // the reporting API: documented to be the same as a panic with that fault
 		}
 		panic(fmt.Sprintf("scripted failure"))
 	case aSub:
@@ -551,9 +587,19 @@ func (r *run) exec(c apiCtx, full vivid.ActorContext, who key, a Action, ext int
 		r.slog = append(r.slog, slogEv{3, who, a.Ty, a.Payload}) // the subscriber snapshot is taken inside this call, before any yield
 		c.EventStream().Publish(full, typedEvent(a.Ty, a.Payload))
 	case aBecome:
-		full.Become(mode(a.Mode), vivid.WithBehaviorDiscardOld(a.Discard))
+		// every API variant: the documented default (no option) is DiscardOld = true
+		if a.Discard && a.Mode%2 == 1 {
+			full.Become(mode(a.Mode))
+		} else {
+			full.Become(mode(a.Mode), vivid.WithBehaviorDiscardOld(a.Discard))
+		}
 	case aUnbecome:
-		full.UnBecome(vivid.WithBehaviorDiscardOld(a.Discard))
+		r.unbecomes++
+		if a.Discard && r.unbecomes%2 == 1 {
+			full.UnBecome()
+		} else {
+			full.UnBecome(vivid.WithBehaviorDiscardOld(a.Discard))
+		}
 	}
 }
 
@@ -562,6 +608,12 @@ func (a *sa) interp(ctx vivid.ActorContext, mode uint64) {
 	c := ctx.(*actor.Context)
 	who := r.keyOf(c)
 	a.sh.path = who.path
+	if a.sh.spec.Provider {
+		if r.provider == nil {
+			r.provider = map[key]bool{}
+		}
+		r.provider[who] = true
+	}
 	if a.sh.spec.Strategy != 0 {
 		if r.scripted == nil {
 			r.scripted = map[string]bool{}
@@ -578,6 +630,21 @@ func (a *sa) interp(ctx vivid.ActorContext, mode uint64) {
 		r.slog = append(r.slog, slogEv{4, who, 101, ev.P})
 	case Ev102:
 		r.slog = append(r.slog, slogEv{4, who, 102, ev.P})
+	}
+	if kind == 3 && ref == who.path {
+		if r.watchersAt == nil {
+			r.watchersAt = map[key][]string{}
+		}
+		if info := actor.XVInfo(c); info.Restarting {
+			delete(r.watchersAt, who) // the end of an incarnation that is being restarted: nobody is notified
+		} else {
+			var ws []string
+			for w := range r.watching[who] {
+				ws = append(ws, w)
+			}
+			sort.Strings(ws)
+			r.watchersAt[who] = ws
+		}
 	}
 	var acts []Action
 	switch m := ctx.Message().(type) {
@@ -605,29 +672,37 @@ type evRec struct {
 }
 
 type result struct {
-	events      []evRec
-	obs         []lib.T
-	final       []lib.T
-	query       []lib.T
-	subs        lib.T
-	overrun     bool
-	stuck       string
-	seens       []seen
-	dead        map[uint64]int // tag -> dead-letter reports handled by the guard
-	zombieAte   map[uint64]bool
-	finals      []finalInfo
-	sent        map[uint64]int
-	stashed     map[uint64]int
-	rootGot     map[uint64]int
-	choices     []vsched.Choice
-	rootState   int32
-	streamSubs  map[string][]string // event type -> subscriber paths at quiescence
-	streamTypes map[string][]string // subscriber path -> event types at quiescence
-	panics      []panicRec
-	decs        []decRec
-	scripted    map[string]bool
-	deadLaunch  map[string]bool
-	slog        []slogEv
+	events           []evRec
+	obs              []lib.T
+	final            [][]lib.T
+	query            []lib.T
+	subs             lib.T
+	overrun          bool
+	stuck            string
+	seens            []seen
+	dead             map[uint64]int // tag -> dead-letter reports handled by the guard
+	zombieAte        map[uint64]bool
+	finals           []finalInfo
+	sent             map[uint64]int
+	stashed          map[uint64]int
+	rootGot          map[uint64]int
+	stashCalls       map[uint64]int // tag -> Stash() calls on it
+	dlReports        map[uint64]int // tag -> dead-letter reports of it inserted into the guard's mailbox
+	zombieAteN       map[uint64]int // tag -> handler calls on it at a zombie
+	queued           map[uint64]int // tag -> copies still sitting in some user queue at quiescence
+	choices          []vsched.Choice
+	rootState        int32
+	streamSubs       map[string][]string // event type -> subscriber paths at quiescence
+	streamTypes      map[string][]string // subscriber path -> event types at quiescence
+	panics           []panicRec
+	decs             []decRec
+	supCalls         []*supCall
+	provider         map[key]bool
+	watchersAt       map[key][]string
+	restartWithStash int // Restart directives handled by an actor that had mail parked in its stash
+	scripted         map[string]bool
+	deadLaunch       map[string]bool
+	slog             []slogEv
 }
 
 type finalInfo struct {
@@ -642,10 +717,13 @@ type finalInfo struct {
 }
 
 type pushInfo struct {
-	desc lib.T
-	sys  bool
-	tag  uint64
-	kind int
+	desc   lib.T
+	sys    bool
+	tag    uint64
+	kind   int
+	ref    string // kind 4: path of the failing child the report names
+	sender string // path of the envelope's sender ("" if none)
+	dlUser bool   // a dead-letter report (kind 12) whose inner message is a user message (tag = its tag)
 }
 
 func execute(scripts [][]Action, choose func([]int, int) int) result {
@@ -653,7 +731,7 @@ func execute(scripts [][]Action, choose func([]int, int) int) result {
 	if err := sys.Start(); err != nil {
 		panic(err)
 	}
-	r := &run{sys: sys, onceDone: map[string]bool{}, sends: map[uint64]int{}, keys: map[*actor.Context]key{}, perPath: map[string]int{}, refKey: map[vivid.ActorRef]key{}, held: make([][]vivid.ActorRef, len(scripts))}
+	r := &run{sys: sys, onceDone: map[string]bool{}, sends: map[uint64]int{}, stashCalls: map[uint64]int{}, keys: map[*actor.Context]key{}, perPath: map[string]int{}, refKey: map[vivid.ActorRef]key{}, held: make([][]vivid.ActorRef, len(scripts))}
 	root := actor.XVRoot(sys)
 	rootKey := r.keyOf(root)
 	s := vsched.New(choose)
@@ -671,7 +749,8 @@ func execute(scripts [][]Action, choose func([]int, int) int) result {
 	shadow := map[*mailbox.UnboundedMailbox]*mbq{}
 	inhand := map[*mailbox.UnboundedMailbox]pushInfo{}
 	threadActor := map[int]key{}
-	res := result{dead: map[uint64]int{}, zombieAte: map[uint64]bool{}, stashed: map[uint64]int{}, rootGot: map[uint64]int{}}
+	res := result{dead: map[uint64]int{}, zombieAte: map[uint64]bool{}, stashed: map[uint64]int{}, rootGot: map[uint64]int{},
+		dlReports: map[uint64]int{}, zombieAteN: map[uint64]int{}, queued: map[uint64]int{}}
 	owner := func(m *mailbox.UnboundedMailbox) (*actor.Context, key) {
 		c := mailbox.XVHandler(m).(*actor.Context)
 		return c, r.keyOf(c)
@@ -682,8 +761,20 @@ func execute(scripts [][]Action, choose func([]int, int) int) result {
 		}
 		return lib.L(lib.N(0), threadActor[real].T())
 	}
+	// C08: the handler call of a supervisor on a failure report, per mailbox goroutine (closed when that goroutine is
+	// back in the mailbox loop); decsSeen = consultations already attributed (a consultation happens inside the step
+	// that has just run, i.e. in the thread this snapshot is about)
+	openSup := map[int]*supCall{}
+	decsSeen := 0
 	s.SnapshotStep = func(real int, label string, obj any) any {
 		m, _ := obj.(*mailbox.UnboundedMailbox)
+		if sc := openSup[real]; sc != nil && (strings.HasPrefix(label, "processHandle:") || strings.HasPrefix(label, "process:")) {
+			delete(openSup, real) // the handler has returned
+		}
+		if sc := openSup[real]; sc != nil && len(r.decs) > decsSeen {
+			sc.decs = append(sc.decs, r.decs[decsSeen:]...)
+		}
+		defer func() { decsSeen = len(r.decs) }()
 		switch {
 		case label == "start":
 			if real < len(scripts) {
@@ -704,8 +795,39 @@ func execute(scripts [][]Action, choose func([]int, int) int) result {
 				dd, kind, _, tag := r.msgDesc(env.Message(), k == rootKey)
 				d = dd
 				pi.kind, pi.tag = kind, tag
+				if env.Sender() != nil {
+					pi.sender = env.Sender().GetPath()
+				}
+				if kind == 4 {
+					if _, ch, _ := actor.XVClassify(env.Message()); ch != nil {
+						pi.ref = ch.GetPath()
+					}
+				}
+				if dl, ok := env.Message().(ves.DeathLetterEvent); ok && k == rootKey {
+					if u, ok := dl.Envelope.Message().(*UMsg); ok {
+						pi.dlUser = true
+						res.dlReports[u.Tag]++
+					}
+				}
 			}
 			pi.desc = d
+			if sc := openSup[real]; sc != nil && env != nil {
+				msg, target := env.Message(), ""
+				if env.Receiver() != nil {
+					target = env.Receiver().GetPath()
+				}
+				if dl, ok := msg.(ves.DeathLetterEvent); ok && k == rootKey { // the target is gone: the directive became a dead letter
+					msg = dl.Envelope.Message()
+					if dl.Envelope.Receiver() != nil {
+						target = dl.Envelope.Receiver().GetPath()
+					}
+				}
+				if ok, ok2 := msg.(*vivid.OnKill); ok2 {
+					sc.pushes = append(sc.pushes, supPush{2, ok.Poison, target})
+				} else if kind, _, flag := actor.XVClassify(msg); kind >= 4 && kind <= 7 {
+					sc.pushes = append(sc.pushes, supPush{kind, flag, target})
+				}
+			}
 			sh := shadow[m]
 			if sh == nil {
 				sh = &mbq{}
@@ -747,7 +869,37 @@ func execute(scripts [][]Action, choose func([]int, int) int) result {
 			threadActor[real] = k
 			pi := inhand[m]
 			res.events = append(res.events, evRec{lib.L(lib.N(3), k.T()), lib.L(lib.Bool(pi.sys), pi.desc)})
-			if k == rootKey && pi.kind == 12 {
+			if (pi.kind == 8 || pi.kind == 9) && pi.sender != "" {
+				// Watch / Unwatch requests as they are handled by a context that is not terminated: the set of watchers the
+				// API promises a notification to (a parent is notified anyway and is not a watcher)
+				if info := actor.XVInfo(c); info.State != 2 || info.Zombie {
+					if r.watching == nil {
+						r.watching = map[key]map[string]bool{}
+					}
+					if r.watching[k] == nil {
+						r.watching[k] = map[string]bool{}
+					}
+					par := k.path[:strings.LastIndex(k.path, "/")]
+					if par == "" {
+						par = "/"
+					}
+					if pi.kind == 8 && pi.sender != par {
+						r.watching[k][pi.sender] = true
+					} else if pi.kind == 9 {
+						delete(r.watching[k], pi.sender)
+					}
+				}
+			}
+			if pi.kind == 7 && actor.XVInfo(c).StashLen > 0 {
+				res.restartWithStash++
+			}
+			if pi.kind == 4 {
+				info := actor.XVInfo(c)
+				sc := &supCall{sup: k, state: info.State, zombie: info.Zombie, child: pi.ref, decs: append([]decRec(nil), r.decs[decsSeen:]...)}
+				r.supCalls = append(r.supCalls, sc)
+				openSup[real] = sc
+			}
+			if k == rootKey && pi.kind == 12 && pi.dlUser {
 				res.dead[pi.tag]++
 			}
 			if k == rootKey && pi.kind == 10 {
@@ -755,6 +907,7 @@ func execute(scripts [][]Action, choose func([]int, int) int) result {
 			}
 			if pi.kind == 10 && actor.XVInfo(c).Zombie {
 				res.zombieAte[pi.tag] = true
+				res.zombieAteN[pi.tag]++
 			}
 		}
 		return nil
@@ -775,7 +928,19 @@ func execute(scripts [][]Action, choose func([]int, int) int) result {
 	res.obs = r.obs
 	res.seens = r.seens
 	res.panics, res.decs, res.scripted, res.deadLaunch, res.slog = r.panics, r.decs, r.scripted, r.deadLaunch, r.slog
+	for _, sc := range openSup {
+		sc.aborted = true
+	}
+	res.supCalls, res.provider, res.watchersAt = r.supCalls, r.provider, r.watchersAt
 	res.sent = r.sends
+	res.stashCalls = r.stashCalls
+	for _, sh := range shadow {
+		for _, pi := range sh.user {
+			if pi.kind == 10 {
+				res.queued[pi.tag]++
+			}
+		}
+	}
 	// final projection
 	for _, c := range r.order {
 		k := r.keys[c]
@@ -800,8 +965,14 @@ func execute(scripts [][]Action, choose func([]int, int) int) result {
 			inst = a.inst
 		}
 		res.query = append(res.query, k.T())
-		res.final = append(res.final, lib.L(pathT(parsePath(k.path)), lib.NI(k.gen), lib.N(uint64(info.State)), lib.Bool(info.Zombie), lib.Bool(paused),
-			lib.N(uint64(sl)), lib.N(uint64(ul)), lib.NI(info.StashLen), lib.LS(ch), lib.LS(wa), lib.NI(info.StackLen), lib.N(inst), lib.Bool(reg)))
+		// the stash itself, oldest first: (system?, message descriptor) per parked envelope
+		st := make([]lib.T, len(info.Stash))
+		for i, e := range info.Stash {
+			d, _, _, _ := r.msgDesc(e.Message(), false)
+			st[i] = lib.L(lib.Bool(e.System()), d)
+		}
+		res.final = append(res.final, []lib.T{pathT(parsePath(k.path)), lib.NI(k.gen), lib.N(uint64(info.State)), lib.Bool(info.Zombie), lib.Bool(paused),
+			lib.N(uint64(sl)), lib.N(uint64(ul)), lib.NI(info.StashLen), lib.LS(ch), lib.LS(wa), lib.NI(info.StackLen), lib.N(inst), lib.Bool(reg), lib.LS(st)})
 		res.finals = append(res.finals, finalInfo{k: k, info: info, paused: paused, sysLen: sl, userLen: ul, reg: reg})
 		for _, e := range info.Stash {
 			if u, ok := e.Message().(*UMsg); ok {
@@ -915,6 +1086,7 @@ func (g *gen) acts(depth int, path []uint64, inHandler bool) []Action {
 		n = g.r.Intn(2)
 	}
 	var out []Action
+	stashes := false
 	for i := 0; i < n; i++ {
 		switch k := g.r.Intn(28); {
 		case k < 8:
@@ -926,10 +1098,12 @@ func (g *gen) acts(depth int, path []uint64, inHandler bool) []Action {
 			out = append(out, Action{K: aSpawn, Spec: sp})
 		case k < 15:
 			out = append(out, Action{K: aKill, R: g.ref(depth), Poison: g.r.Bool()})
-		case k < 18:
+		case k < 17:
 			out = append(out, Action{K: aPanic})
 		case k < 18 && inHandler && !hasKind(out, aUnstash):
+			// (this arm used to be unreachable - the panic arm above also tested k < 18 - so no random scenario ever stashed)
 			out = append(out, Action{K: aStash})
+			stashes = true
 		case k < 20 && inHandler && !hasKind(out, aStash):
 			a := Action{K: aUnstash}
 			if g.r.Bool() {
@@ -956,6 +1130,29 @@ func (g *gen) acts(depth int, path []uint64, inHandler bool) []Action {
 		case inHandler:
 			out = append(out, Action{K: aUnbecome, Discard: g.r.Bool()})
 		}
+	}
+	// a message that parks itself and (directly or through the mail it sends) un-parks itself again is handled for
+	// ever: user-level non-termination, not a runtime defect. No Unstash below a Stash.
+	if stashes {
+		for i := range out {
+			if out[i].K == aTell || out[i].K == aTellSelf {
+				out[i].Acts = dropUnstash(out[i].Acts)
+			}
+		}
+	}
+	return out
+}
+
+func dropUnstash(as []Action) []Action {
+	var out []Action
+	for _, a := range as {
+		if a.K == aUnstash {
+			continue
+		}
+		if a.K == aTell || a.K == aTellSelf {
+			a.Acts = dropUnstash(a.Acts)
+		}
+		out = append(out, a)
 	}
 	return out
 }
@@ -1065,8 +1262,11 @@ func (g *gen) supScenario() [][]Action {
 		return h
 	}
 	// 0 user message, 1 OnLaunch, 2 a child's OnKilled, 3 user message + sibling failure,
-	// 4 a second failure while the first is undecided (user message, then the grandchild's OnKilled while suspended)
-	site := g.r.Intn(5)
+	// 4 a second failure while the first is undecided (user message, then the grandchild's OnKilled while suspended),
+	// 5 user message while the SUPERVISOR is in its own graceful stop (it poison-kills itself right after sending the
+	//   burst: the children's poison kills queue up behind their backlog, so c1 fails under a supervisor in state killing),
+	// 6 the same with the supervisor in its own supervised (graceful) restart: it fails at the end of its OnLaunch
+	site := g.r.Intn(7)
 	grand := &Spec{Name: 1, Prelaunch: true, Provider: g.r.Bool()}
 	c1 := &Spec{Name: 1, Prelaunch: true, Provider: g.r.Bool(), Hooks: hooks(), Strategy: g.r.Intn(3), Decisions: decs()}
 	c1.Launch = []Action{{K: aSpawn, Spec: grand}}
@@ -1087,8 +1287,11 @@ func (g *gen) supScenario() [][]Action {
 	fail := g.r.Intn(k)
 	for i := 0; i < k; i++ {
 		var acts []Action
-		if i == fail && (site == 0 || site == 3) {
+		if i == fail && (site == 0 || site == 3 || site == 5 || site == 6) {
 			acts = []Action{{K: aPanic}}
+		} else if i < fail && g.r.Chance(1, 3) {
+			// the incarnation that is going to fail changes its behaviour first: a restart has to reset the stack
+			acts = []Action{{K: aBecome, Mode: uint64(1 + g.r.Intn(3)), Discard: g.r.Bool()}}
 		} else if i == fail && site == 4 {
 			acts = []Action{{K: aKill, R: RX{K: 3, N: 1}, Poison: g.r.Bool()}, {K: aPanic}} // kill the grandchild and fail at once
 		} else if i == fail && site == 2 {
@@ -1102,10 +1305,19 @@ func (g *gen) supScenario() [][]Action {
 	if site == 3 {
 		p.Launch = append(p.Launch, Action{K: aTell, R: RX{K: 3, N: 2}, Tag: g.tag(), Acts: []Action{{K: aPanic}}})
 	}
+	if site == 5 {
+		p.Launch = append(p.Launch, Action{K: aKill, R: RX{K: 0}, Poison: true})
+	}
+	if site == 6 {
+		p.Launch = append(p.Launch, Action{K: aPanic})
+	}
 	top := p
 	path := []uint64{1}
-	if g.r.Bool() { // an extra level so that Escalate has somewhere to go below the root
+	if site == 6 || g.r.Bool() { // an extra level so that Escalate has somewhere to go below the root
 		gp := &Spec{Name: 1, Prelaunch: true, Strategy: 1 + g.r.Intn(2), Decisions: decs()}
+		if site == 6 {
+			gp.Decisions = append([]int{2}, gp.Decisions...) // graceful restart of the supervisor: it waits for its children
+		}
 		gp.Launch = []Action{{K: aSpawn, Spec: p}}
 		top = gp
 		path = []uint64{1, 1}
@@ -1179,6 +1391,217 @@ func (g *gen) streamScenario() [][]Action {
 	return scripts
 }
 
+// stash scenario (C03 accounting of parked mail, C02 stash order, C05 restart): a worker under a scripted supervisor
+// parks user messages with Stash (sometimes twice, sometimes behind a Become), then goes through a lifecycle
+// transition - a supervised failure with every decision (restart / graceful restart / stop / graceful stop / resume /
+// escalate / invalid), restart hooks that may fail (zombie), a kill (poison or not), the supervisor's own failure, or a
+// failing message that had parked itself first - then more mail is parked and Unstash runs in every API variant
+// (Unstash(), Unstash(n) for n < 0, 0, 1, 2, 3, more than there is), from a later message, from the OnLaunch of the
+// new incarnation ("drain on start") or from OnKill ("drain on stop": the parked mail becomes dead letters), with
+// probes afterwards. All sends race the transitions under the controlled scheduler.
+func (g *gen) stashScenario() [][]Action {
+	g.names = nil
+	dec := func() int { return []int{1, 1, 1, 2, 2, 2, 3, 4, 5, 6, 0}[g.r.Intn(11)] }
+	decs := func() []int {
+		n := 1 + g.r.Intn(3)
+		out := make([]int, n)
+		for i := range out {
+			out[i] = dec()
+		}
+		return out
+	}
+	hooks := func() [][3]bool {
+		var h [][3]bool
+		for i := 0; i < g.r.Intn(3); i++ {
+			h = append(h, [3]bool{!g.r.Chance(1, 4), !g.r.Chance(1, 5), !g.r.Chance(1, 5)})
+		}
+		return h
+	}
+	unst := func() Action {
+		if g.r.Chance(1, 4) {
+			return Action{K: aUnstash}
+		}
+		return Action{K: aUnstash, HasN: true, NZ: []int64{-1, 0, 1, 2, 3, 100, 100, 100}[g.r.Intn(8)]}
+	}
+	w := &Spec{Name: 1, Prelaunch: true, Provider: g.r.Bool(), Hooks: hooks()}
+	if g.r.Chance(1, 3) {
+		w.Launch = []Action{unst()} // every incarnation starts by draining what the previous one parked
+	}
+	if g.r.Chance(1, 4) {
+		w.Kill = []Action{unst()} // drain on stop
+	}
+	if g.r.Chance(1, 6) {
+		w.Launch = append(w.Launch, Action{K: aSpawn, Spec: &Spec{Name: 1, Prelaunch: true}}) // a grandchild: the stop / restart has to wait for it
+	}
+	sib := &Spec{Name: 2, Prelaunch: true}
+	p := &Spec{Name: 1, Prelaunch: true, Strategy: 1 + g.r.Intn(2), Decisions: decs()}
+	p.Launch = []Action{{K: aSpawn, Spec: w}, {K: aSpawn, Spec: sib}}
+	top, pp := p, []uint64{1}
+	if g.r.Chance(1, 4) { // a level above, so that Escalate reaches a scripted strategy
+		gp := &Spec{Name: 1, Prelaunch: true, Strategy: 1 + g.r.Intn(2), Decisions: decs()}
+		gp.Launch = []Action{{K: aSpawn, Spec: p}}
+		top, pp = gp, []uint64{1, 1}
+	}
+	wp := append(append([]uint64(nil), pp...), 1)
+	main := []Action{{K: aSpawn, Spec: top}}
+	// the traffic is sent by the supervisor from its OnLaunch, right after it spawned the worker (an external caller's
+	// sends through a parsed reference would mostly arrive before the worker is registered and become dead letters);
+	// the worker's mailbox then holds the whole sequence in order and works through it while the supervisor reacts
+	tellW := func(acts ...Action) {
+		p.Launch = append(p.Launch, Action{K: aTell, R: RX{K: 3, N: 1}, Tag: g.tag(), Acts: acts})
+	}
+	park := func() {
+		for i, k := 0, 1+g.r.Intn(4); i < k; i++ {
+			switch g.r.Intn(8) {
+			case 0:
+				tellW(Action{K: aStash}, Action{K: aStash}) // parked twice: two copies
+			case 1:
+				tellW(Action{K: aBecome, Mode: uint64(1 + g.r.Intn(3)), Discard: g.r.Bool()}, Action{K: aStash})
+			case 2:
+				tellW() // plain mail in between
+				tellW(Action{K: aStash})
+			default:
+				tellW(Action{K: aStash})
+			}
+		}
+	}
+	for round, rounds := 0, 1+g.r.Intn(2); round < rounds; round++ {
+		park()
+		switch g.r.Intn(9) {
+		case 0, 1, 2, 3:
+			tellW(Action{K: aPanic}) // supervised failure: the next decision of the parent
+		case 4:
+			tellW(Action{K: aStash}, Action{K: aPanic}) // the failing message parked itself first: it fails again when it comes back
+		case 5:
+			p.Launch = append(p.Launch, Action{K: aKill, R: RX{K: 3, N: 1}, Poison: g.r.Bool()})
+		case 6:
+			p.Launch = append(p.Launch, Action{K: aTellSelf, Tag: g.tag(), Acts: []Action{{K: aPanic}}}) // the supervisor itself fails
+		case 7:
+			tellW(Action{K: aPanic})
+			tellW(Action{K: aPanic}) // a second failure queued behind the first
+		}
+		if g.r.Bool() {
+			park()
+		}
+		if g.r.Chance(1, 3) {
+			// drain one by one with the argument-less form, down to the last parked envelope and beyond
+			for i, k := 0, 1+g.r.Intn(7); i < k; i++ {
+				tellW(Action{K: aUnstash})
+			}
+		} else {
+			for i, k := 0, g.r.Intn(4); i < k; i++ {
+				tellW(unst())
+			}
+		}
+		for i, k := 0, g.r.Intn(3); i < k; i++ {
+			tellW()
+		}
+	}
+	for i, k := 0, g.r.Intn(3); i < k; i++ { // late probes from outside, through a parsed reference
+		main = append(main, Action{K: aTell, R: RX{K: 4, P: wp}, Tag: g.tag(), Acts: []Action{unst()}})
+	}
+	scripts := [][]Action{main}
+	if g.r.Chance(1, 3) {
+		var second []Action
+		for i, k := 0, 1+g.r.Intn(3); i < k; i++ {
+			switch g.r.Intn(5) {
+			case 0:
+				second = append(second, Action{K: aKill, R: RX{K: 4, P: wp}, Poison: g.r.Bool()})
+			case 1:
+				second = append(second, Action{K: aTell, R: RX{K: 4, P: wp}, Tag: g.tag(), Acts: []Action{unst()}})
+			case 2:
+				second = append(second, Action{K: aTell, R: RX{K: 4, P: wp}, Tag: g.tag(), Acts: []Action{{K: aPanic}}})
+			default:
+				second = append(second, Action{K: aTell, R: RX{K: 4, P: wp}, Tag: g.tag(), Acts: []Action{{K: aStash}}})
+			}
+		}
+		scripts = append(scripts, second)
+	}
+	return scripts
+}
+
+// death-watch scenario (C06: "its parent and every actor watching it receive exactly one OnKilled for it"): a target
+// under a scripted supervisor, 1..3 sibling watchers and sometimes a watcher outside the subtree. The watchers
+// register one after the other through a baton message (so that the target really has all of them when the baton
+// reaches it), some twice, some unwatch again; the baton ends at the target with a kill of itself (poison or not) or a
+// failure its supervisor decides about (restart: the watchers must survive it; stop; escalate ...); later rounds end
+// the target again (after a restart the same context, after a stop a re-spawned one nobody watches yet).
+func (g *gen) watchScenario() [][]Action {
+	g.names = nil
+	tp := []uint64{1, 1}
+	wpath := func(i int) []uint64 { return []uint64{1, uint64(i)} }
+	end := func() []Action {
+		switch g.r.Intn(5) {
+		case 0:
+			return []Action{{K: aKill, R: RX{K: 0}, Poison: true}}
+		case 1:
+			return []Action{{K: aKill, R: RX{K: 0}, Poison: false}}
+		}
+		return []Action{{K: aPanic}}
+	}
+	var hooks [][3]bool
+	for i := 0; i < g.r.Intn(2); i++ {
+		hooks = append(hooks, [3]bool{!g.r.Chance(1, 4), !g.r.Chance(1, 6), !g.r.Chance(1, 6)})
+	}
+	t := &Spec{Name: 1, Prelaunch: true, Provider: g.r.Bool(), Hooks: hooks}
+	if g.r.Chance(1, 4) {
+		t.Launch = []Action{{K: aSpawn, Spec: &Spec{Name: 1, Prelaunch: true}}} // the termination has to wait for a grandchild
+	}
+	nW := 1 + g.r.Intn(3)
+	var decs []int
+	for i := 0; i < 1+g.r.Intn(3); i++ {
+		decs = append(decs, []int{1, 1, 1, 2, 2, 3, 4, 5, 6}[g.r.Intn(9)])
+	}
+	p := &Spec{Name: 1, Prelaunch: true, Strategy: 1 + g.r.Intn(2), Decisions: decs}
+	p.Launch = []Action{{K: aSpawn, Spec: t}}
+	for i := 0; i < nW; i++ {
+		p.Launch = append(p.Launch, Action{K: aSpawn, Spec: &Spec{Name: uint64(2 + i), Prelaunch: true}})
+	}
+	// the baton: watcher 2 registers and passes it on to watcher 3, ... the last one hands [last] to the target
+	var baton func(i int, reg bool, last []Action) Action
+	baton = func(i int, reg bool, last []Action) Action {
+		if i >= nW {
+			return Action{K: aTell, R: RX{K: 4, P: tp}, Tag: g.tag(), Acts: last}
+		}
+		var acts []Action
+		if reg {
+			switch g.r.Intn(6) {
+			case 0:
+				acts = []Action{{K: aWatch, R: RX{K: 4, P: tp}}, {K: aWatch, R: RX{K: 4, P: tp}}} // twice: no additional effect
+			case 1:
+				acts = []Action{{K: aWatch, R: RX{K: 4, P: tp}}, {K: aUnwatch, R: RX{K: 4, P: tp}}} // changed its mind
+			case 2:
+				// not this one
+			default:
+				acts = []Action{{K: aWatch, R: RX{K: 4, P: tp}}}
+			}
+		} else if g.r.Chance(1, 5) {
+			acts = []Action{{K: aUnwatch, R: RX{K: 4, P: tp}}}
+		}
+		acts = append(acts, baton(i+1, reg, last))
+		return Action{K: aTell, R: RX{K: 4, P: wpath(2 + i)}, Tag: g.tag(), Acts: acts}
+	}
+	rounds := 1 + g.r.Intn(3)
+	for r := 0; r < rounds; r++ {
+		p.Launch = append(p.Launch, baton(0, r == 0 || g.r.Chance(1, 3), end()))
+		if g.r.Chance(1, 4) {
+			p.Launch = append(p.Launch, Action{K: aSpawn, Spec: t}) // re-spawn under the same name (fails while the old one is alive)
+		}
+	}
+	main := []Action{{K: aSpawn, Spec: p}}
+	if g.r.Chance(1, 3) { // a watcher outside the subtree; its request races the rest
+		main = append(main, Action{K: aSpawn, Spec: &Spec{Name: 2, Prelaunch: true, Launch: []Action{{K: aWatch, R: RX{K: 4, P: tp}}}}})
+	}
+	for i, k := 0, g.r.Intn(3); i < k; i++ {
+		main = append(main, Action{K: aTell, R: RX{K: 4, P: tp}, Tag: g.tag()})
+	}
+	scripts := [][]Action{main}
+	if g.r.Chance(1, 4) {
+		scripts = append(scripts, []Action{{K: aKill, R: RX{K: 4, P: tp}, Poison: g.r.Bool()}})
+	}
+	return scripts
+}
+
 // spawn-while-stopping scenario (monitor-only: uses the harness-only Once flag, which the model does not have):
 // a parent that is being killed spawns a replacement child from its OnKilled(child) handler
 func (g *gen) killSpawnScenario() [][]Action {
@@ -1216,6 +1639,51 @@ func collectTags(as []Action, out map[uint64]bool) {
 	}
 }
 
+// ---------------------------------------------------------------- observations that cannot be located
+
+// unavailable: the private observations the accessors could not locate in the build under test (a renamed or
+// restructured field). They are listed in the report's info, blanked in the final projection on both sides (the
+// model gets the same mask) and the monitors that need them are skipped: nothing fails because of them.
+func unavailable() map[string]bool {
+	m := map[string]bool{}
+	for _, u := range actor.XVUnavailable() {
+		m[u] = true
+	}
+	return m
+}
+
+// positions in the per-actor tuple of the final projection (100 = the event-stream tables)
+var maskOf = map[string][]uint64{"state": {2}, "zombie": {3}, "stash": {7, 13}, "watchers": {9}, "stack": {10}, "actor": {11}, "registry": {12}, "stream": {100}}
+
+func projectionMask() []uint64 {
+	var out []uint64
+	for u := range unavailable() {
+		out = append(out, maskOf[u]...)
+	}
+	sort.Slice(out, func(i, j int) bool { return out[i] < out[j] })
+	return out
+}
+
+// list-valued positions of the per-actor tuple (blank = the empty list; the others blank to 0)
+var listField = map[int]bool{0: true, 8: true, 9: true, 13: true}
+
+func blankFields(fs []lib.T, mask []uint64) lib.T {
+	out := make([]lib.T, len(fs))
+	for i, f := range fs {
+		out[i] = f
+		for _, m := range mask {
+			if uint64(i) == m {
+				if listField[i] {
+					out[i] = lib.L()
+				} else {
+					out[i] = lib.N(0)
+				}
+			}
+		}
+	}
+	return lib.LS(out)
+}
+
 // ---------------------------------------------------------------- driver
 
 type H struct {
@@ -1232,8 +1700,23 @@ func (h *H) emit(scripts [][]Action, res result) {
 	for i, e := range res.events {
 		evs[i], outs[i] = e.ev, e.out
 	}
-	in := lib.L(lib.LS(sc), lib.LS(evs), lib.LS(res.query))
-	out := lib.L(lib.LS(outs), lib.LS(res.obs), lib.LS(res.final), res.subs, lib.Bool(false))
+	mask := projectionMask()
+	mt := make([]lib.T, len(mask))
+	for i, m := range mask {
+		mt[i] = lib.N(m)
+	}
+	final := make([]lib.T, len(res.final))
+	for i, f := range res.final {
+		final[i] = blankFields(f, mask)
+	}
+	subs := res.subs
+	for _, m := range mask {
+		if m == 100 {
+			subs = lib.L()
+		}
+	}
+	in := lib.L(lib.LS(sc), lib.LS(evs), lib.LS(res.query), lib.LS(mt))
+	out := lib.L(lib.LS(outs), lib.LS(res.obs), lib.LS(final), subs, lib.Bool(false))
 	if res.overrun {
 		// the run was cut: there is no complete trace to compare, only the monitor below
 		h.o.Stats["overrun"]++
@@ -1269,6 +1752,7 @@ func (h *H) emit(scripts [][]Action, res result) {
 			h.o.Stats["final:stash-nonempty"]++
 		}
 	}
+	h.o.Stats["restart-with-parked-mail"] += res.restartWithStash
 	h.o.Stats["events"] += len(evs)
 	h.o.Stats["actors"] += len(res.finals)
 	h.monitors(scripts, res, in)
@@ -1284,6 +1768,8 @@ func (h *H) monitors(scripts [][]Action, res result, in lib.T) {
 		started  bool
 		dead     bool
 		killSeen bool
+		insts    map[uint64]bool // actor instances that have handled a message of an earlier incarnation of this context
+		lastInst uint64
 	}
 	st := map[key]*lc{}
 	for si, s := range res.seens {
@@ -1292,8 +1778,25 @@ func (h *H) monitors(scripts [][]Action, res result, in lib.T) {
 			l = &lc{}
 			st[s.who] = l
 		}
+		if l.insts == nil {
+			l.insts = map[uint64]bool{}
+		}
 		switch {
 		case s.kind == 1 && (!l.started || l.dead):
+			if l.dead {
+				// a supervised restart: the OnLaunch that opens the new incarnation. It must be handled by the behaviour the
+				// stack was reset to (the actor's OnReceive) and, with a provider, by the fresh instance - not by an
+				// instance / behaviour of the incarnation that has just seen its own OnKilled
+				if s.mode != 0 {
+					h.o.Monitor("c05-launch-to-stale-behaviour", in, fmt.Sprintf("%v was restarted, but the OnLaunch of the new incarnation was handled by the behaviour installed with Become (mode %d) in the previous incarnation, not by the actor's OnReceive the behaviour stack is reset to", s.who, s.mode))
+				}
+				if res.provider[s.who] && l.insts[s.inst] {
+					h.o.Monitor("c05-launch-to-stale-instance", in, fmt.Sprintf("%v (spawned with an actor provider) was restarted, but the OnLaunch of the new incarnation was handled by instance %d, which already lived through an earlier incarnation and has seen its own OnKilled; the fresh instance never gets an OnLaunch", s.who, s.inst))
+				}
+				if !res.provider[s.who] && s.inst != l.lastInst {
+					h.o.Monitor("c05-launch-to-stale-instance", in, fmt.Sprintf("%v (no provider) was restarted, but the OnLaunch of the new incarnation was handled by instance %d instead of the actor instance %d", s.who, s.inst, l.lastInst))
+				}
+			}
 			l.started, l.dead, l.killSeen = true, false, false
 		default:
 			if !l.started {
@@ -1330,6 +1833,8 @@ func (h *H) monitors(scripts [][]Action, res result, in lib.T) {
 				l.killSeen = true
 			}
 		}
+		l.insts[s.inst] = true
+		l.lastInst = s.inst
 	}
 	// ---- C19: an event type is only ever delivered to actors whose scripts subscribe to it (nobody else)
 	subscribedEver := map[string]map[uint64]bool{}
@@ -1407,6 +1912,67 @@ func (h *H) monitors(scripts [][]Action, res result, in lib.T) {
 			gensOf[f.k.path] = f.k.gen + 1
 		}
 	}
+	un := unavailable()
+	core := !un["state"] && !un["zombie"] && !un["registry"] // what almost every state-based monitor below needs
+	// ---- C06: a terminating actor (its behaviour saw its own OnKilled outside a restart) notifies its parent and every
+	// actor that was watching it at that moment: an observer that lives through the whole run untouched (the only
+	// context ever created under its path, one incarnation, never failed or killed, running, idle and unpaused at
+	// quiescence) has seen one OnKilled naming the path for each such termination
+	if core && !un["restarting"] {
+		steady := map[string]bool{}
+		for _, f := range res.finals {
+			if f.reg && f.info.State == 0 && !f.info.Zombie && !f.paused && f.sysLen == 0 && f.userLen == 0 && f.k.path != "/" && gensOf[f.k.path] == 1 {
+				steady[f.k.path] = true
+			}
+		}
+		nl := map[string]int{}
+		for _, sn := range res.seens {
+			if sn.kind == 1 {
+				nl[sn.who.path]++
+			}
+			if sn.kind == 2 {
+				steady[sn.who.path] = false
+			}
+		}
+		for _, pn := range res.panics {
+			steady[pn.who.path] = false
+		}
+		for p, n := range nl {
+			if n != 1 {
+				steady[p] = false
+			}
+		}
+		owedW, owedP := map[[2]string]int{}, map[[2]string]int{} // (observer path, dead path) -> terminations it has to hear of
+		for t, ws := range res.watchersAt {
+			for _, w := range ws {
+				owedW[[2]string{w, t.path}]++
+			}
+			if i := strings.LastIndex(t.path, "/"); i > 0 {
+				owedP[[2]string{t.path[:i], t.path}]++
+			}
+		}
+		heard := func(obs, dead string) int {
+			n := 0
+			for who, c := range killedSeenBy[dead] {
+				if strings.HasPrefix(who, "{"+obs+" ") {
+					n += c
+				}
+			}
+			return n
+		}
+		if res.rootState == 0 {
+			for k, n := range owedW {
+				if steady[k[0]] && heard(k[0], k[1]) < n {
+					h.o.Monitor("c06-watcher-not-notified", in, fmt.Sprintf("%s was watching %s at %d termination(s) of it (outside a restart) and lived through the run untouched, but saw only %d OnKilled for it", k[0], k[1], n, heard(k[0], k[1])))
+				}
+			}
+			for k, n := range owedP {
+				if steady[k[0]] && heard(k[0], k[1]) < n+owedW[k] {
+					h.o.Monitor("c06-parent-not-notified", in, fmt.Sprintf("%s is the parent of %s, which terminated %d time(s) (outside a restart); the parent lived through the run untouched but saw only %d OnKilled for it", k[0], k[1], n, heard(k[0], k[1])))
+				}
+			}
+		}
+	}
 	for dead, by := range killedSeenBy {
 		for who, n := range by {
 			if n > gensOf[dead] {
@@ -1414,6 +1980,11 @@ func (h *H) monitors(scripts [][]Action, res result, in lib.T) {
 			}
 		}
 	}
+	if !core {
+		h.o.Stats["state-based-monitors-skipped:observation-unavailable"]++
+		return
+	}
+	h.c08(res, in, !un["sup-sub-targets"])
 	if res.rootState != 0 {
 		h.o.Stats["root-stopped-runs"]++
 		return // after the system itself stopped, undeliverable messages are dropped by design
@@ -1561,6 +2132,9 @@ func (h *H) monitors(scripts [][]Action, res result, in lib.T) {
 		}
 	}
 	for ty, ps := range res.streamSubs {
+		if un["stream"] {
+			break
+		}
 		for _, p := range ps {
 			if !live[p] {
 				h.o.Monitor("c06-subscription-outlives-actor", in, fmt.Sprintf("%s is still subscribed to %s at quiescence although no live actor is registered at that path", p, ty))
@@ -1575,6 +2149,9 @@ func (h *H) monitors(scripts [][]Action, res result, in lib.T) {
 		}
 	}
 	for p, ts := range res.streamTypes {
+		if un["stream"] {
+			break
+		}
 		for _, ty := range ts {
 			found := false
 			for _, q := range res.streamSubs[ty] {
@@ -1605,25 +2182,180 @@ func (h *H) monitors(scripts [][]Action, res result, in lib.T) {
 			processed[s.tag]++
 		}
 	}
-	h.c03(res, in, processed)
+	if !un["stash"] {
+		h.c03(res, in, processed)
+	}
+}
+
+// c08: every failure report handled by a live supervisor - whatever the supervisor's own state: running, stopping, in the
+// middle of its own restart, zombie - leads to exactly one consultation of ITS strategy, and the directive that is sent
+// out is the decided one, to exactly the strategy's targets: the failing child (one-for-one) or the supervisor's
+// children (one-for-all), and to nobody else
+func (h *H) c08(res result, in lib.T, chainKnown bool) {
+	parentOf := func(p string) string {
+		i := strings.LastIndex(p, "/")
+		if i <= 0 {
+			return "/"
+		}
+		return p[:i]
+	}
+	count := func(ps []supPush, kind int) map[string]int {
+		m := map[string]int{}
+		for _, p := range ps {
+			if p.kind == kind {
+				m[p.target]++
+			}
+		}
+		return m
+	}
+	sameSet := func(got map[string]int, want []string) bool {
+		w := map[string]int{}
+		for _, t := range want {
+			w[t]++
+		}
+		if len(w) != len(got) {
+			return false
+		}
+		for t, n := range w {
+			if got[t] != n {
+				return false
+			}
+		}
+		return true
+	}
+	show := func(ps []supPush) string {
+		out := ""
+		for _, p := range ps {
+			out += fmt.Sprintf(" %s(%v)->%s", map[int]string{2: "kill", 4: "report", 5: "pause", 6: "resume", 7: "restart"}[p.kind], p.flag, p.target)
+		}
+		return out
+	}
+	for _, sc := range res.supCalls {
+		if sc.aborted || (sc.state == 2 && !sc.zombie) {
+			continue // a terminated supervisor does not handle the report (it is a dead letter)
+		}
+		h.o.Stats[fmt.Sprintf("supervision-call:supervisor-state-%d", sc.state)]++
+		scripted := res.scripted[sc.sup.path]
+		strategy, decision, targets, sub := 1, 3, []string{sc.child}, [][]string(nil) // the system default: one-for-one, Stop
+		if scripted {
+			switch len(sc.decs) {
+			case 0:
+				h.o.Monitor("c08-strategy-not-consulted", in, fmt.Sprintf("%v (state %d) handled the failure report of %s but its scripted strategy was not consulted; it sent:%s", sc.sup, sc.state, sc.child, show(sc.pushes)))
+				continue
+			case 1:
+			default:
+				h.o.Monitor("c08-strategy-consulted-twice", in, fmt.Sprintf("%v consulted its strategy %d times for one failure report of %s", sc.sup, len(sc.decs), sc.child))
+				continue
+			}
+			d := sc.decs[0]
+			strategy, decision, sub = d.strategy, d.decision, d.sub
+			targets = d.chain
+			if strategy == 2 {
+				targets = d.children
+			}
+		} else if len(sc.decs) != 0 {
+			continue
+		}
+		if decision < 1 || decision > 6 {
+			decision = 6 // out-of-range values are documented to escalate
+		}
+		bad := ""
+		if !sameSet(count(sc.pushes, 5), targets) {
+			bad = "the mailboxes paused are not the strategy's targets"
+		}
+		wantRestart, wantKill, wantReport := []string(nil), []string(nil), []string(nil)
+		graceful := decision == 2 || decision == 4
+		switch decision {
+		case 1, 2:
+			wantRestart = targets
+		case 3, 4:
+			wantKill = targets
+		case 6:
+			wantReport = []string{parentOf(sc.sup.path)}
+		}
+		if !sameSet(count(sc.pushes, 7), wantRestart) || !sameSet(count(sc.pushes, 2), wantKill) || !sameSet(count(sc.pushes, 4), wantReport) {
+			bad = "the directive sent is not the decided one, or not to exactly the strategy's targets"
+		}
+		for _, p := range sc.pushes {
+			if (p.kind == 7 || p.kind == 2) && p.flag != graceful {
+				bad = "the directive's graceful flag is not the decided one"
+			}
+		}
+		resumes := count(sc.pushes, 6)
+		if decision == 5 || graceful {
+			allowed := map[string]bool{}
+			for _, t := range targets {
+				allowed[t] = true
+				if resumes[t] == 0 {
+					bad = "a target is not resumed"
+				}
+			}
+			for _, ts := range sub {
+				for _, t := range ts {
+					allowed[t] = true
+				}
+			}
+			for t := range resumes {
+				if !allowed[t] && chainKnown {
+					bad = "an actor outside the escalation chain's targets is resumed"
+				}
+			}
+		} else if len(resumes) != 0 {
+			bad = "a Resume is sent although the decision is neither Resume nor graceful"
+		}
+		if bad != "" {
+			h.o.Monitor("c08-directive-mismatch", in, fmt.Sprintf("%v (state %d, strategy %d) decided %d for the failure of %s with targets %v (escalation chain below: %v): %s; it sent:%s",
+				sc.sup, sc.state, strategy, decision, sc.child, targets, sub, bad, show(sc.pushes)))
+		}
+	}
 }
 
 func (h *H) c03(res result, in lib.T, processed map[uint64]int) {
-	for t, n := range res.sent {
-		if n == 0 {
-			continue
+	// Token accounting per tag. A copy of user message t comes into being by a send (Tell / TellSelf) or by a Stash()
+	// call made while t is the current message (the handler call consumed the mailbox copy, Stash parks a new one;
+	// Unstash only moves a copy from the stash back to the mailbox). A copy ends by: a behaviour invocation on it
+	// (processed; the guard "processes" what is addressed to it by ignoring it), a handler call at a zombie (the
+	// documented exception), or a dead-letter report inserted into the guard's mailbox (by the dead branch of
+	// HandleEnvelop or by the dead-letter mailbox for an unknown target). At quiescence a copy that has not ended
+	// may only sit in a stash. So, with every count taken from what the real runtime did:
+	//     sends + stashCalls = processed + rootGot + zombieAte + dlReports + inStash          (else lost / duplicated)
+	tags := map[uint64]bool{}
+	for t := range res.sent {
+		tags[t] = true
+	}
+	for t := range res.stashed {
+		tags[t] = true
+	}
+	for t := range res.dlReports {
+		tags[t] = true
+	}
+	for t := range processed {
+		tags[t] = true
+	}
+	for t := range tags {
+		n := res.sent[t]
+		if res.dead[t] > res.dlReports[t] {
+			h.o.Monitor("c03-dead-letter-twice", in, fmt.Sprintf("user message %d: %d dead-letter report(s) were sent to the guard but it published %d dead-letter events", t, res.dlReports[t], res.dead[t]))
 		}
-		if res.dead[t] > n {
-			h.o.Monitor("c03-dead-letter-twice", in, fmt.Sprintf("user message %d was sent %d time(s) but reported as a dead letter %d times", t, n, res.dead[t]))
-		}
-		if processed[t] == 0 && res.rootGot[t] == 0 && res.dead[t] == 0 && res.stashed[t] == 0 && !res.zombieAte[t] {
+		made := n + res.stashCalls[t]
+		ended := processed[t] + res.rootGot[t] + res.zombieAteN[t] + res.dlReports[t]
+		kept := res.stashed[t]
+		switch {
+		case made > ended+kept:
 			where := ""
-			for _, f := range res.finals {
-				if f.userLen > 0 {
-					where += fmt.Sprintf(" [%v state=%d paused=%v holds %d queued user message(s)]", f.k, f.info.State, f.paused, f.userLen)
+			if res.queued[t] > 0 {
+				where = fmt.Sprintf("; %d copy(ies) still queued:", res.queued[t])
+				for _, f := range res.finals {
+					if f.userLen > 0 {
+						where += fmt.Sprintf(" [%v state=%d zombie=%v paused=%v holds %d queued user message(s)]", f.k, f.info.State, f.info.Zombie, f.paused, f.userLen)
+					}
 				}
 			}
-			h.o.Monitor("c03-lost-message", in, fmt.Sprintf("user message %d was sent %d time(s) but was never processed, stashed or dead-lettered%s", t, n, where))
+			h.o.Monitor("c03-lost-message", in, fmt.Sprintf("user message %d: %d cop(ies) came into being (sent %d time(s), parked by %d Stash call(s)) but only %d are accounted for at quiescence (processed %d, ignored by the guard %d, consumed by a zombie %d, dead-lettered %d, in a stash %d): %d lost, never processed, stashed or dead-lettered%s",
+				t, made, n, res.stashCalls[t], ended+kept, processed[t], res.rootGot[t], res.zombieAteN[t], res.dlReports[t], kept, made-ended-kept, where))
+		case made < ended+kept:
+			h.o.Monitor("c03-duplicated-message", in, fmt.Sprintf("user message %d: %d cop(ies) came into being (sent %d time(s), parked by %d Stash call(s)) but %d are accounted for (processed %d, ignored by the guard %d, consumed by a zombie %d, dead-lettered %d, in a stash %d): not exactly one place per copy",
+				t, made, n, res.stashCalls[t], ended+kept, processed[t], res.rootGot[t], res.zombieAteN[t], res.dlReports[t], kept))
 		}
 	}
 }
@@ -1633,9 +2365,9 @@ func main() {
 	o := lib.NewOut(f.Out)
 	h := &H{o}
 	r := lib.NewRand(f.Seed)
-	n := 150
+	n := 210
 	if f.Tier == "thorough" {
-		n = 4000
+		n = 4900
 	}
 	if f.N > 0 {
 		n = f.N
@@ -1643,11 +2375,15 @@ func main() {
 	g := &gen{r: r}
 	for i := 0; i < n; i++ {
 		var sc [][]Action
-		switch i % 5 {
+		switch i % 7 {
 		case 1, 3:
 			sc = g.supScenario()
 		case 4:
 			sc = g.streamScenario()
+		case 5:
+			sc = g.stashScenario()
+		case 6:
+			sc = g.watchScenario()
 		default:
 			sc = g.scenario()
 		}
@@ -1662,20 +2398,25 @@ func main() {
 		h.emit(sc, execute(sc, ch))
 	}
 	o.Info["scenarios"] = n
+	o.Info["unavailable_observations"] = actor.XVUnavailable()
 	// systematic exploration: depth-first enumeration of schedules with a preemption bound over a few small
 	// scenarios (supervision matrix + stream + random), each schedule replayed on the model
-	dfsScen, dfsRuns, bound := 4, 40, 1
+	dfsScen, dfsRuns, bound := 5, 32, 1
 	if f.Tier == "thorough" {
 		dfsScen, dfsRuns, bound = 40, 400, 2
 	}
 	total := 0
 	for i := 0; i < dfsScen; i++ {
 		var sc [][]Action
-		switch i % 3 {
+		switch i % 5 {
 		case 0:
 			sc = g.supScenario()
 		case 1:
 			sc = g.streamScenario()
+		case 3:
+			sc = g.stashScenario()
+		case 4:
+			sc = g.watchScenario()
 		default:
 			sc = g.scenario()
 		}
@@ -1703,6 +2444,10 @@ func main() {
 		h.monitors(sc, res, in)
 	}
 	o.Info["monitor_only_scenarios"] = mo
+	o.Info["unavailable_observations"] = actor.XVUnavailable()
+	for _, u := range actor.XVUnavailable() {
+		fmt.Fprintf(os.Stderr, "observation %q: UNAVAILABLE in this build of vivid (blanked in the final projection on both sides; the monitors that need it are skipped)\n", u)
+	}
 	o.Info["dfs_scenarios"] = dfsScen
 	o.Info["dfs_preemption_bound"] = bound
 	o.Info["dfs_runs"] = total
